@@ -148,6 +148,7 @@ struct State
     std::set<std::string> names;   // crate names in play (raw bytes)
     std::set<std::string> paths;   // relative paths in play
     std::set<int64_t> ids;         // extra ids in play
+    std::set<int64_t> held_ids;    // ids of handles that a reopen released (count as "known" whatever their size)
     std::optional<dj::track_snapshot> last_snapshot;  // result of the latest "snapshot" op
     void reset()
     {
